@@ -1,53 +1,61 @@
 import NLV.Model.Trace
 import NLV.Driver.Util
 import NLV.Driver.Registrars
-/-! Acceptance-mode driver for model D1: the observed event stream of a child must be producible by the model
-(same nesting, same numbers), and — independently — accepted by the registrars' grammar `Reg.wrun`. -/
+/-! Driver for model D1.  Every observed event of the child's stream corresponds to exactly one visible action of the model
+(`e …` lines); the hidden number-drawing steps are proposed by the harness (`h …` lines, a witness it computes from the
+whole stream) and executed here like any other step.  The model is deterministic given the labels: the stream is accepted
+iff every step is enabled and every visible step emits exactly the observed event (same numbers) — and, independently,
+the registrars' grammar `Reg.wrun` accepts it. -/
 namespace NLV.Driver.Trace
 open NLV.Trace NLV.Reg NLV.Driver
 
-structure Cand where
-  s : Trace.St
-  pend : List Ev          -- events the model has already emitted for a multi-event action, still to be observed
-  deriving DecidableEq
-
-def dedupC (l : List Cand) : List Cand := l.foldl (fun acc x => if acc.contains x then acc else acc ++ [x]) []
-
 structure D where
-  cands : List Cand := [{ s := {}, pend := [] }]
+  s : Trace.St := {}
+  ok : Bool := true
   ents : List (Nat × Ent) := []            -- observed trace number ↦ entity
-  stash : List (Nat × Ev) := []            -- OnStartTrace seen, waiting for the first trace call of that trace
   w : Option W := some {}                  -- registrars' grammar state
   n : Nat := 0
 
 def entOf (d : D) (t : Nat) : Option Ent := (d.ents.find? fun e => e.1 = t).map (·.2)
 
-def tryAct (c : Cand) (e : Ent) (a : Act) (expect : List Ev) : Option Cand :=
-  match Trace.step c.s e a with
-  | none => none
-  | some s' =>
-    let new := s'.out.drop c.s.out.length
-    -- the first `expect.length` new events must be the expected ones; the rest stays pending
-    if new.take expect.length == expect && expect.length ≤ new.length then some { s := s', pend := new.drop expect.length } else none
+def hidden (d : D) (e : Ent) (a : Act) : D × String :=
+  if !d.ok then (d, "reject:earlier") else
+  match Trace.step d.s e a with
+  | none => ({ d with ok := false }, "reject:hidden-step-not-enabled")
+  | some s' => if s'.out.length = d.s.out.length then ({ d with s := s' }, "ok") else ({ d with ok := false }, "reject:hidden-step-emitted")
 
-def observe (d : D) (t : Nat) (ev : Ev) (acts : List Act) (pre : List Ev) : D × String :=
-  match entOf d t with
-  | none => (d, "reject:unknown-trace")
-  | some e =>
-    let cands := d.cands.flatMap fun c =>
-      match c.pend with
-      | p :: ps => if pre.isEmpty && p == ev then [{ c with pend := ps }] else []
-      | [] => acts.filterMap fun a => tryAct c e a (pre ++ [ev])
-    let cands := dedupC cands
-    let w' := (pre ++ [ev]).foldl (fun w x => w.bind fun w => wstep w x) d.w
-    let d' := { d with cands := cands, w := w', n := d.n + 1 }
-    if cands.isEmpty then (d', "reject:model")
-    else if w'.isNone then (d', "reject:grammar")
-    else (d', s!"ok:{cands.length}")
+def observe (d : D) (e : Ent) (ev : Ev) (a : Act) : D × String :=
+  if !d.ok then (d, "reject:earlier") else
+  let w' := d.w.bind fun w => wstep w ev
+  match Trace.step d.s e a with
+  | none => ({ d with ok := false, n := d.n + 1 }, "reject:model")
+  | some s' =>
+    if s'.out.drop d.s.out.length == [ev] then
+      if w'.isNone then ({ d with s := s', w := w', ok := false, n := d.n + 1 }, "reject:grammar")
+      else ({ d with s := s', w := w', n := d.n + 1 }, "ok")
+    else ({ d with ok := false, n := d.n + 1 }, s!"reject:model-emits-other")
+
+def optNat (s : String) : Option (Option Nat) := if s = "-" then some none else s.toNat?.map some
 
 def handle (d : D) (ws : List String) : D × String :=
   match ws with
   | ["reset"] => ({}, "ok")
+  | ["h", "ids", th, ta] => (match th.toNat?, optNat ta with
+    | some th, some ta => hidden d { thread := th, task := ta } .drawIds
+    | _, _ => (d, "bad-op"))
+  | ["h", "trace", th, ta] => (match th.toNat?, optNat ta with
+    | some th, some ta => hidden d { thread := th, task := ta } .drawTrace
+    | _, _ => (d, "bad-op"))
+  | ["h", "call", t, f, l, fr, evk] => (match t.toNat?, f.toNat?, l.toNat?, fr.toNat?, evk.toNat? with
+    | some t, some f, some l, some fr, some evk => (match entOf d t with
+      | some e => hidden d e (.drawCall f l fr evk)
+      | none => ({ d with ok := false }, "reject:unknown-trace"))
+    | _, _, _, _, _ => (d, "bad-op"))
+  | ["h", "prompt", t] => (match t.toNat? with
+    | some t => (match entOf d t with
+      | some e => hidden d e .drawPrompt
+      | none => ({ d with ok := false }, "reject:unknown-trace"))
+    | none => (d, "bad-op"))
   | "e" :: rest =>
     match Driver.Reg.parseEv rest with
     | none => (d, "bad-op")
@@ -55,23 +63,28 @@ def handle (d : D) (ws : List String) : D × String :=
       match ev with
       | .startTrace t th ta =>
         -- entity identity as far as it is observable: (thread number, task number)
-        ({ d with ents := d.ents.filter (fun e => e.1 ≠ t) ++ [(t, { thread := th, task := ta })], stash := d.stash ++ [(t, ev)] }, "ok:stash")
-      | .startCall t c =>
-        let pre := (d.stash.filter fun x => x.1 = t).map (·.2)
-        let d1 := { d with stash := d.stash.filter fun x => x.1 ≠ t }
-        observe d1 t ev [.enter c.file c.line c.frame c.event] pre
-      | .startCmdloop t _ => observe d t ev [.stop] []
-      | .startPrompt t _ _ text => observe d t ev [.prompt text] []
-      | .endPrompt t _ cmd => observe d t ev [.answer cmd false, .answer cmd true, .abort] []
-      | .endCmdloop t _ => observe d t ev [.abort] []
-      | .endCall t _ => observe d t ev [.leave, .abort] []
-      | .endTrace t => observe d t ev [.finish] []
-      | .stdout t text => observe d t ev [.write text] []
-  | ["end"] =>
-    -- end of stream: nothing may be left pending or stashed
-    let ok := d.cands.any fun c => c.pend.isEmpty
-    (d, if ok && d.stash.isEmpty then "ok" else "reject:pending")
+        let e : Ent := { thread := th, task := ta }
+        observe { d with ents := d.ents.filter (fun x => x.1 ≠ t) ++ [(t, e)] } e ev .emitStart
+      | _ =>
+        match entOf d (evTraceNo ev) with
+        | none => ({ d with ok := false }, "reject:unknown-trace")
+        | some e =>
+          match ev with
+          | .startCall .. => observe d e ev .emitCall
+          | .startCmdloop .. => observe d e ev .stop
+          | .startPrompt _ _ _ text => observe d e ev (.emitPrompt text)
+          | .endPrompt _ _ cmd => observe d e ev (.answer cmd)
+          | .endCmdloop .. => observe d e ev .endLoop
+          | .endCall .. => observe d e ev .leave
+          | .endTrace .. => observe d e ev .finish
+          | .stdout _ text => observe d e ev (.write text)
+          | .startTrace .. => (d, "bad-op")
+  | ["end"] => (d, if d.ok then "ok" else "reject:earlier")
   | _ => (d, "bad-op")
+where
+  evTraceNo : Ev → Nat
+    | .startTrace t _ _ | .endTrace t | .startCall t _ | .endCall t _ | .startCmdloop t _ | .endCmdloop t _
+    | .startPrompt t _ _ _ | .endPrompt t _ _ | .stdout t _ => t
 
 def main : IO Unit := do
   loop (← IO.getStdin) (← IO.getStdout) ({} : D) handle
